@@ -436,7 +436,7 @@ def minimize_lbfgsb(
     if checkpoint is None:
         grad = sf.grad(x)
     else:
-        grad = checkpoint.jac
+        grad = np.copy(checkpoint.jac)
 
     # scale the initial gradient and consequently the objective function
     # this is optional and needs to be investigated and documented.
